@@ -131,7 +131,7 @@ func (h *HAProxy) Dial(network, address string) (net.Conn, error) {
 	if rt.Fault("sock.dial_enoent", address) {
 		return nil, opErr("dial", address, syscall.ENOENT)
 	}
-	return &simConn{h: h, master: master, addr: address}, nil
+	return &simConn{h: h, master: master, addr: address, gen: h.LoadedSeq}, nil
 }
 
 // ---------------------------------------------------------------------------
@@ -139,6 +139,7 @@ func (h *HAProxy) Dial(network, address string) (net.Conn, error) {
 
 type simConn struct {
 	h        *HAProxy
+	gen      int // the worker process that accepted the connection (admin socket): a reload starts another one
 	master   bool
 	addr     string
 	in       []byte
@@ -267,7 +268,7 @@ func (c *simConn) process() {
 				cmd := c.paycmd
 				pl := c.payload.String()
 				c.payload = nil
-				c.reply(c.h.adminCommand(cmd, pl))
+				c.reply(c.adminCommand(cmd, pl))
 			} else {
 				c.payload.WriteString(line)
 				c.payload.WriteByte('\n')
@@ -296,7 +297,7 @@ func (c *simConn) process() {
 			}
 			c.reply(out)
 		} else {
-			c.reply(c.h.adminCommand(line, ""))
+			c.reply(c.adminCommand(line, ""))
 		}
 	}
 }
@@ -441,6 +442,43 @@ func (h *HAProxy) install(cfg *HAConfig) {
 
 // ---------------------------------------------------------------------------
 // admin CLI
+
+// adminCommand runs the command on the worker that accepted the connection. After a reload that is the
+// outgoing process, which stays around while it has sessions (this connection is one): it answers as usual,
+// and nothing it is told reaches the process that serves the traffic.
+func (c *simConn) adminCommand(line, payload string) string {
+	h := c.h
+	if c.gen == h.LoadedSeq {
+		return h.adminCommand(line, payload)
+	}
+	h.run.rt.Stat("haproxy.cmd_to_old_worker")
+	h.run.probe("admin_command_to_outgoing_worker")
+	f := strings.Fields(line)
+	switch {
+	case len(f) >= 3 && f[0] == "set" && f[1] == "server":
+		h.run.trace("admin(old worker)< %s", line)
+		return ""
+	case len(f) >= 4 && f[0] == "set" && f[1] == "ssl" && f[2] == "cert":
+		return "Transaction created for certificate " + f[3] + "!\n"
+	case len(f) >= 4 && f[0] == "commit" && f[1] == "ssl" && f[2] == "cert":
+		return "Committing " + f[3] + ".\nSuccess!\n"
+	}
+	return h.adminExecReadOnly(line)
+}
+
+// adminExecReadOnly answers the commands that change nothing.
+func (h *HAProxy) adminExecReadOnly(line string) string {
+	f := strings.Fields(line)
+	switch {
+	case len(f) >= 2 && f[0] == "show" && f[1] == "info":
+		return "Name: HAProxy\nVersion: 2.5.3\nIdle_pct: 100\n"
+	case len(f) >= 3 && f[0] == "show" && f[1] == "servers" && f[2] == "state":
+		return "1\n# be_id be_name srv_id srv_name srv_addr\n"
+	case len(f) >= 2 && f[0] == "show" && f[1] == "sess":
+		return ""
+	}
+	return "Unknown command. Please enter one of the following commands only :\n  help\n"
+}
 
 func (h *HAProxy) adminCommand(line, payload string) string {
 	rt := h.run.rt
